@@ -7,7 +7,7 @@ from . import core, progs, known, cyc, evaltie
 
 def mutate_illtyped(rng, src):
     """inject one kind error / unbound name / duplicate / bad status into an accepted program"""
-    reps = [(" num", " <>"), (" str", " (get -> <>)"), ("{ ", "{ 5XX, "), ("[", "[<>, "), ("status=200", "status=999"),
+    reps = [(" num", " <>"), (" str", " (get -> <>)"), ("{ ", "{ 5XX, "), ("[", "[<>, "), ("status=200", "status=999"), ("status=200", "status=70000"), ("status=404", "status=65536"), ("status=201", "status=4294967296"),
             ("status=404", 'status="x"'), (" -> ", " -> 42 :: "), ("let ", "let dup = num;\nlet dup = str;\nlet ", ),
             ("res /", "res nosuch /"), ("media=\"", "media=12 ,headers=\"")]
     for _ in range(6):
@@ -109,6 +109,20 @@ ARITY = [
 ]
 
 
+def concat_nests():
+    """nested applications of the built-in concat over root, literal, variable and parameterised URIs: values of the
+    standard library fed back into it (the evaluator's invariants on URI values must survive every combination)"""
+    import itertools
+    ops = ["(/)", "/a", "/a/b", "/{ 'id int }", "(/x?{ 'q str })", "/a/"]
+    out = []
+    for a, b, c in itertools.product(ops, repeat=3):
+        out.append("let u = concat (concat %s %s) %s;\nres u on get -> <>;\n" % (a, b, c))
+        out.append("let u = concat %s (concat %s %s);\nres u on get -> <>;\n" % (a, b, c))
+    out.append("let root = /;\nlet prefix = concat root (/);\nlet items = concat prefix /items;\nlet item = concat items /{ 'id int };\n"
+               "res items on get -> [{ 'name str }];\nres item on get -> { 'name str };\n")
+    return out
+
+
 def mutate_arity(rng, text):
     """drop or duplicate one argument of an application `f a b` of a generated function (names fN)"""
     import re
@@ -152,7 +166,7 @@ def check(ctx):
             ill.append(q)
         cy = [cyc.gen_cyclic(ctx.rng) for _ in range(n // 2)]
         ps = ps + ill + [c[0] for c in cy]
-        for s in cyc.CORPUS + ARITY:
+        for s in cyc.CORPUS + ARITY + concat_nests():
             ps.append({"mods": {"file:///w/main.oal": s}, "main": "file:///w/main.oal", "features": ["corpus"], "ast": None})
         # applications with an argument too few or too many, before and after the declaration of the function
         for p in progs.gen_programs(ctx, 300 if ctx.thorough else 60, start=9000):
